@@ -116,6 +116,8 @@ def check_C15(chk):
     c15d(chk)
     c15e(chk)
     c15f(chk)
+    # shared clauses: the bytes handed to the npy reader are the file's bytes (C07.e) and a written file holds nothing but what was written (C07.g)
+    chk.borrow(lambda: (c07e(chk), c07g(chk)), "C15.g", 3)
     for r, n in (("C15.a", 21), ("C15.b", 24), ("C15.c", 11), ("C15.d", 8), ("C15.e", 3), ("C15.f", 3)):
         chk.floor(r, n)
 
@@ -720,6 +722,9 @@ def check_C07(chk):
     c07g(chk)
     import rules_num
     rules_num.scs_from_array_is_a_wrapper(chk, "C07.e")
+    # shared clause: every precision the text writer is asked for is the one given on the command line, up to the formatter's own limit
+    import rules_panic as RP_
+    chk.borrow(lambda: RP_.precision_bound(chk, "C17.f"), "C07.h", 2)
     for r, n in (("C07.a", 3), ("C07.b", 5), ("C07.c", 5), ("C07.d", 4), ("C07.e", 5), ("C07.f", 6), ("C07.g", 2)):
         chk.floor(r, n)
 
@@ -853,6 +858,26 @@ def c07b(chk):
     chk.ob("C07.b", "npy-descr/through-type-tables", ok, "", "writer prints the descr with TypeDescriptor's Display, reader parses it with parse_type_descriptor (tables checked in C15.b)")
 
 
+def float_computation_in(prog, fns):
+    """every f64 operation written in the given bodies: arithmetic, comparison, negation, int<->float casts, float literals, f64 methods"""
+    comp = []
+    for g_ in fns:
+        for b_, i_, p_, rv_, s_ in g_.assigns():
+            if rv_["k"] == "binop" and ("f64" in (rv_.get("lty") or "") or "f64" in (rv_.get("rty") or "") or "f32" in (rv_.get("lty") or "")):
+                comp.append("%s at %s" % (rv_["op"], g_.loc(b_)))
+            if rv_["k"] == "unop" and "f64" in (rv_.get("ty") or g_.local_ty(p_[0]) or "") and rv_["op"] == "Neg":
+                comp.append("Neg at %s" % g_.loc(b_))
+            if rv_["k"] == "cast" and (("f64" in (rv_.get("from") or "")) != ("f64" in (rv_.get("ty") or ""))):
+                comp.append("cast %s->%s at %s" % (rv_.get("from"), rv_.get("ty"), g_.loc(b_)))
+            if rv_["k"] == "use" and isinstance(const_val(rv_["op"]), dict) and "f" in const_val(rv_["op"]):
+                comp.append("float literal %s at %s" % (const_val(rv_["op"])["f"], g_.loc(b_)))
+        for b_, t_ in g_.calls():
+            nm_ = callee_name(t_["callee"])
+            if nm_.startswith(("std::f64::<impl f64>::", "core::f64::<impl f64>::", "core::num::<impl f64>::")):
+                comp.append("%s at %s" % (nm_.split("::")[-1], g_.loc(b_)))
+    return comp
+
+
 def c07c(chk):
     prog = chk.prog
     hf = chk.fn(TEXT_HDR_FMT)
@@ -941,21 +966,7 @@ def c07c(chk):
     chk.ob("C07.c", "text-values/printed-with-requested-precision", ok, fsn.loc() if fsn else "", "every value is printed as `{x:.precision$}` with nothing around it (first and following values alike)")
     # ... and it is the stored value that is printed: the formatter computes nothing on f64 (no rounding, clamping, flushing to zero, rescaling)
     if fsn is not None:
-        comp = []
-        for g_ in [fsn] + prog.closures_of(fsn.path):
-            for b_, i_, p_, rv_, s_ in g_.assigns():
-                if rv_["k"] == "binop" and ("f64" in (rv_.get("lty") or "") or "f64" in (rv_.get("rty") or "") or "f32" in (rv_.get("lty") or "")):
-                    comp.append("%s at %s" % (rv_["op"], g_.loc(b_)))
-                if rv_["k"] == "unop" and "f64" in (rv_.get("ty") or g_.local_ty(p_[0]) or "") and rv_["op"] == "Neg":
-                    comp.append("Neg at %s" % g_.loc(b_))
-                if rv_["k"] == "cast" and (("f64" in (rv_.get("from") or "")) != ("f64" in (rv_.get("ty") or ""))):
-                    comp.append("cast %s->%s at %s" % (rv_.get("from"), rv_.get("ty"), g_.loc(b_)))
-                if rv_["k"] == "use" and isinstance(const_val(rv_["op"]), dict) and "f" in const_val(rv_["op"]):
-                    comp.append("float literal %s at %s" % (const_val(rv_["op"])["f"], g_.loc(b_)))
-            for b_, t_ in g_.calls():
-                nm_ = callee_name(t_["callee"])
-                if nm_.startswith(("std::f64::<impl f64>::", "core::f64::<impl f64>::", "core::num::<impl f64>::")):
-                    comp.append("%s at %s" % (nm_.split("::")[-1], g_.loc(b_)))
+        comp = float_computation_in(prog, [fsn] + prog.closures_of(fsn.path))
         chk.ob("C07.c", "text-values/printed-as-stored(no-float-computation-in-the-formatter)", not comp, fsn.loc(),
                "between the stored f64 and `{x:.precision$}` nothing is computed on it (found: %s)" % (comp or "nothing"))
 
@@ -1185,6 +1196,8 @@ def check_C16(chk):
     c16c(chk)
     c16d(chk)
     c16e(chk)
+    # shared clause: a damaged file can only be recognised if the reader sees the file's bytes as they are (C07.e)
+    chk.borrow(lambda: c07e(chk), "C16.f", 2)
     for r, n in (("C16.a", 4), ("C16.b", 3), ("C16.c", 5), ("C16.d", 2), ("C16.e", 10)):
         chk.floor(r, n)
 
@@ -1617,6 +1630,9 @@ def check_C18(chk):
     chk.rule_counts["C18.d"] = chk.rule_counts.pop("C07.e", 0)
     c18e(chk)
     reader_outcomes(chk, "C18.e")
+    # shared clause: a record that cannot be used fails the run instead of being passed over (decided for C08 / C10)
+    import rules_geno as RG_
+    chk.borrow(lambda: RG_.c08f(chk), "C18.f", 3)
     for r, n in (("C18.a", 7), ("C18.b", 100), ("C18.c", 3), ("C18.d", 5), ("C18.e", 5)):
         chk.floor(r, n)
 
